@@ -355,7 +355,7 @@ func CommentTokens(src []byte) map[string]int {
 			break
 		}
 		if tok == token.COMMENT {
-			out[lit]++
+			out[strings.ReplaceAll(lit, "\r", "")]++ // go/scanner drops carriage returns from comment text itself
 		}
 	}
 	return out
@@ -363,7 +363,9 @@ func CommentTokens(src []byte) map[string]int {
 
 // ExpectedComment is the text a Comment(tx) must appear as, by the documented rule.
 func ExpectedComment(tx string) string {
-	if strings.Contains(tx, "\n") {
+	style := tx
+	tx = strings.ReplaceAll(tx, "\r", "") // compared with CommentTokens, which are free of carriage returns
+	if strings.Contains(style, "\n") {
 		want := "/*\n" + tx
 		if !strings.HasSuffix(tx, "\n") {
 			want += "\n"
